@@ -280,6 +280,7 @@ fn main() {
                 k: flagval(&flags, "--k"),
                 misuse: flags.contains(&"--misuse"),
                 vm_only: flags.contains(&"--vm-only"),
+                vop_only: flags.contains(&"--vop-only"),
                 shared_actor: flags.contains(&"--shared-actor"),
             };
             match engine.as_str() {
@@ -354,7 +355,13 @@ fn main() {
                     eng_simple::set_kind(flags[i + 1]);
                     drive::drive::<eng_simple::SimpleEng>(out, &o)
                 }
-                "list" => drive::drive::<eng_list::ListEng>(out, &o),
+                "list" => {
+                    let n = fv("--deep-gap", 0);
+                    if n > 0 {
+                        println!("{}", json!({"probe": "deep_gap", "n": n, "result": eng_list::deep_gap_probe(n)}));
+                    }
+                    drive::drive::<eng_list::ListEng>(out, &o)
+                }
                 "glist" => drive::drive::<eng_list::GListEng>(out, &o),
                 "merkle" => drive::drive::<eng_merkle::MerkleEng>(out, &o),
                 "map_mv" => drive::drive::<eng_map::MapEng<crdts::MVReg<u8, u8>>>(out, &o),
